@@ -142,8 +142,13 @@ def u_store(strategy):
                          z3.ToReal(size1) >= hs.low))
     ctx.check('C09/store/full_signal_only_at_max',
               z3.Implies(z3.BoolVal(cfull > 0), z3.And(z3.Not(inf), z3.ToReal(size0) >= hs.max, accepted)))
-    ctx.check('C09/store/full_signal_at_max',
+    # (that store signals at all is the mechanism, not part of C09: informative only)
+    ctx.check('aux/store/full_signal_at_max',
               z3.Implies(z3.And(accepted, z3.Not(inf), z3.ToReal(size0) >= hs.max), z3.BoolVal(cfull == 1)))
+    # what C09 needs: a full signal is raised inside the critical section that observed the fullness --
+    # raised after the lock is released it can arrive after the writer has drained and signalled space
+    all_full = len([e for e in hs.log.events if e[0] == 'events.cacheFull'])
+    ctx.check('C09/store/full_signal_inside_the_lock_region', z3.BoolVal(all_full == cfull))
     ctx.check('C09/store/never_signals_space', z3.BoolVal(len([e for e in hs.log.events if e[0] == 'events.cacheSpaceAvailable']) == 0))
   return run
 
@@ -198,7 +203,7 @@ def replay_cache(kind, strategies=None):
       return res
     # no sequential history fails: look for a two-thread schedule (lock-region / signalling clauses)
     key = ob.label.split('/')[-1].split('[')[0]
-    if key in ('full_signal_at_max', 'full_signal_only_at_max', 'flag_implies_above_low', 'check_follows', 'resumes',
+    if key in ('full_signal_inside_the_lock_region', 'full_signal_only_at_max', 'flag_implies_above_low', 'check_follows', 'resumes',
                'never_signals_space', 'signals_space_at_most_once'):
       only = 'sched-paused-at-quiescence'
     else:
